@@ -23,14 +23,30 @@ ApplyUf.lean, ApplyUfFull.lean, run through Drivers/C16.lean) and the real code 
                 duplicate event names refused                                              exact
   calc-ext      DR_Results.calc_ext on crafted per-case columns (NaN-propagating numpy max /
                 argmax, labels, ext_x reset, SRS envelope)                                 exact
-  stat-ext      DR_Results.calc_stat_ext (mean +/- k sigma) at Float                        numeric (1e-12)
+  stat-ext      DR_Results.calc_stat_ext (mean +/- k sigma, ddof = 1; also srs.ext) at Float numeric (1e-12)
   uf            DR_Event.apply_uf / cla.apply_uf with vector m, b, k (m None allowed), rb /
                 rf modes, real and complex solutions, shared / fresh `save`                numeric
   uf-full       the same with 2-D k (symmetric or not), m None / vector / matrix, b vector /
                 matrix, C- and Fortran-ordered caller matrices, coupling entries between the
-                partitions, caller's matrices unchanged; Lean model at Float, once with the
-                implementation's own factorisation (lu_solve(lup, I)) as the inverse and once
-                with the inverse the driver computes from k[ee] by Gauss-Jordan            numeric
+                partitions, caller's matrices unchanged; rfmodes as None / one integer / index
+                array (sorted or not) / boolean mask, sent to the model IN THAT FORM (normRf);
+                Lean model at Float, once with the implementation's own factorisation
+                (lu_solve(lup, I)) as the inverse and once with the inverse the driver computes
+                from k[ee], k[rf, rf] by Gauss-Jordan                                      numeric
+  tree          nested DR_Results (1-3 levels, base events and groups mixed, empty groups, one or two
+                categories, stale 'extreme' entries formed before the last member was added or with
+                another doappend): form_extreme at every level against Model/ExtremaTree.lean, key
+                order, `cases`, form twice, delete_extreme, delete_extreme then form_extreme,
+                all_categories / all_base_events / all_nonbase_events                      exact
+  heap          cla.extrema histories and form_extreme over add_maxmin events with every input object
+                created beforehand and handed in as it is: after the history EVERY input cell (ext,
+                ext_x, label lists) and the accumulator are compared with the store of
+                Model/ExtremaHeap.lean (abscissae always / never / sometimes given)        exact
+  psd-srs       psd_data_recovery(dosrs=True): per-case spectra against C03's vrs model run on the
+                model's own accumulated PSD (srsconv, peak factor or resp_time, eqsine), envelope on
+                the implementation's own spectra; solvepsd(use_apply_uf=True) with modal data, rb / rf
+                modes and non-unit factors: the unit-force responses come from the Rat model of
+                apply_uf                                                             numeric + exact
 
 Exactness: everything the extrema code does to a value is compare / negate / move, so every double
 is sent to the Int model as its order-preserving, odd-symmetric integer key (IEEE bit pattern with
@@ -42,7 +58,9 @@ The model-free oracle (`search`) restates the property on the public API: brute-
 minima over the inputs, labels and abscissae of an attaining case, order independence of values,
 envelope of parts, idempotence of form_extreme, calc_ext agreement, the PSD sum over the forces /
 trapezoid rms / linearity / force-order independence, merge refusals, the documented apply_uf formulas
-(also for full matrices, via numpy.linalg.solve) and cache transparency.
+(also for full matrices, via numpy.linalg.solve) and cache transparency, nested structures (parts
+bit-identical, every group's envelope, no stale 'extreme', idempotence, delete-then-form, traversal order), the
+documented vibration response spectrum of the response PSD and its envelope, mean + k sigma with ddof = 1.
 """
 import copy
 import itertools
@@ -57,7 +75,8 @@ from runner import Infra
 
 ID = "C16"
 LEAN_MODULES = ["PyYetiVerif.Props.C16", "PyYetiVerif.Props.C16Full", "PyYetiVerif.Props.C16FullRoutine", "PyYetiVerif.Props.C16Pipe",
-                "PyYetiVerif.Props.C16Psd", "PyYetiVerif.Audit.C16"]
+                "PyYetiVerif.Props.C16Psd", "PyYetiVerif.Props.C16FullRf", "PyYetiVerif.Props.C16Stat", "PyYetiVerif.Props.C16Tree",
+                "PyYetiVerif.Props.C16Heap", "PyYetiVerif.Audit.C16"]
 AUDIT_FILE = "PyYetiVerif/Audit/C16.lean"
 THEOREMS = [
     "PyYetiVerif.C16." + n
@@ -72,14 +91,22 @@ THEOREMS = [
         "frf_recovery_is_abs_extreme merge_of_disjoint_case_sets_is_one_pass merge_refuses_duplicates "
         "store_refuses_duplicates calc_ext_is_fold_max stat_ext_sanity "
         "psd_recovery_is_sum_over_forces psd_row_is_sum_over_forces rms_is_trapz_sqrt peak_is_factor_times_rms "
-        "meansquare_is_linear psd_recovery_is_peak_extreme"
+        "meansquare_is_linear psd_recovery_is_peak_extreme "
+        "rows_partition uf_scaling_full_routine_rf uf_unit_full_routine_rf cache_transparent_full_rf rf_forms_agree "
+        "stat_ext_def stat_ext_order_independent stat_ext_monotone_in_k "
+        "form_extreme_idempotent form_extreme_keeps_parts delete_extreme_spec nested_traversal_order "
+        "form_extreme_flat_is_envelope form_extreme_does_not_modify_parts aliased_first_call_modifies_part "
+        "psd_srs_env_is_max_over_cases psd_srs_case_scaling heap_run_is_run2 nested_envelope_is_recursive_extrema"
     ).split()
 ]
 TRUSTED = [
     "correspondence harness harness/props/c16.py (exact on order keys of doubles; 1e-9 relative for apply_uf; 1e-12 for PSD numerics and calc_stat_ext)",
     "numpy vectorisation over rows: the model is per row, every row of the implementation's tables is compared",
     "numpy kernels nanargmax/nanargmin/fmax/abs/max/argmax/mean/std and fancy indexing behave as modelled (re-measured by the streams)",
-    "pyyeti.srs.srs / srs_frf produce the per-case spectra; only their storage and envelope are in scope",
+    "pyyeti.srs.srs / srs_frf produce the per-case spectra; only their storage and envelope are in scope; srs.vrs is C03's "
+    "model Srs.vrsOne (imported read-only), compared at 1e-9 with the oscillator frequencies inside the analysis grid",
+    "Python object identity is modelled by Model/ExtremaHeap.lean (arrays / lists = cells of a store); that numpy's .copy(), "
+    "copy.copy, list slicing and r*[s] allocate and that element assignment writes in place is what the heap streams re-measure",
     "scipy.linalg.lu_factor/lu_solve: enter the model as a matrix (the factorisation applied to the identity); that this matrix "
     "inverts k[ee] is re-measured on every run by the `gauss` variant of the uf-full stream (the driver inverts k[ee] itself)",
     "IEEE double arithmetic of Lean's Float for the numeric streams (uf-full, psd, stat-ext)",
@@ -92,8 +119,11 @@ RULE = (
     "and j order plus every order of the cases for a subset; PSD toy events with 2-4 cases, 1-3 forces, 2-6 rows, "
     "3-7 frequencies on a dyadic grid, integer force PSDs and integer (complex) unit responses; form_extreme over 2-5 "
     "events flat or in 2-3 groups with doappend 0-3; add_maxmin events; merge name lists with repeats and renames; "
-    "apply_uf with 1-6 modes, 0-2 rigid-body and 0-2 residual-flexibility modes, 1-4 factor tuples, vector and full "
-    "(symmetric or not, C / Fortran ordered) matrices. One case = one history / event / structure compared on all rows "
+    "apply_uf with 1-6 modes, 0-2 rigid-body and 0-2 residual-flexibility modes (rfmodes None / integer / index array in "
+    "either order / boolean mask), 1-4 factor tuples, vector and full (symmetric or not, C / Fortran ordered) matrices; "
+    "nested results of depth 1-3 with 1-3 members per group and stale 'extreme' entries; extrema histories with all inputs "
+    "created beforehand; PSD events with SRS (1-3 oscillator frequencies on the grid, Q 10 / 25, eqsine, resp_time) and "
+    "with solvepsd(use_apply_uf=True) (modal vectors, 0-2 rb, 0-2 rf modes, factors from {0.5, 1, 1.25, 1.5, 2}). One case = one history / event / structure compared on all rows "
     "and all prefixes; non-trivial = at least two calls and at least one replacement after the first call (extrema), "
     "at least one non-rigid mode (apply_uf), an accepted event (recovery streams); distinct by the canonical input."
 )
@@ -104,27 +134,39 @@ ASSUMPTIONS = [
     "save dict use the same sol, m, b, k, nrb, rfmodes; rfmodes index modes at or above nrb",
     "PSD recovery: every case has at least one non-zero force PSD (with all forces zero and allow_force_trimming the code "
     "raises TypeError in _calc_rms); solvepsd and psd_data_recovery are called alternately per case (as documented); "
-    "dosrs=False (srs.vrs of the response PSD is out of scope); uncertainty factors through frf_apply_uf with unit factors",
+    "the SRS oscillator frequencies of a PSD event lie on the analysis frequency grid (srs.vrs merges the two grids and "
+    "interpolates otherwise: C03's subject); uncertainty factors through frf_apply_uf with unit factors, through apply_uf "
+    "(use_apply_uf=True) with vector m, b, k and any factors",
     "calc_stat_ext: at least two cases (ddof=1)",
+    "nested results: a dictionary holds either categories or dictionaries (what merge / prepare_results build); no category "
+    "is named 'extreme'; all base events carry the same categories",
 ]
 PARTIAL = (
-    "full-matrix apply_uf: uf_scaling_full / uf_unit_full are about the partition (block) arithmetic with the factorisation as "
-    "data; the whole routine including the partition layer (flippv / np.ix_ extraction, in-place scalings, scatter into n rows) "
-    "is proved for rfmodes = None and any nrb < n (uf_*_full_routine); WITH residual-flexibility modes the extraction and scatter "
-    "are executable model code tied by the uf-full stream but have no theorem of their own; delete_extreme (recursion over "
-    "nested results) is covered by the form-twice check and the oracle only; calc_stat_ext has a model, a numeric stream and "
-    "only a sanity theorem (k = 0, equal cases); the SRS of the response PSD (srs.vrs, dosrs=True in psd_data_recovery) and "
-    "solvepsd(use_apply_uf=True) are not driven"
+    "full-matrix apply_uf is now proved as a whole routine with and without residual-flexibility modes, the factorisations "
+    "entering as matrices with k[e,e] * KeeInv = 1, k[r,r] * KrrInv = 1 (that lu_factor / lu_solve deliver such matrices is "
+    "re-measured by the `gauss` variant, not proved); rfmodes below nrb or with repeated indices are outside the theorems "
+    "(and outside what the routine documents); the store model of cla.extrema (Model/ExtremaHeap.lean) covers the two-column "
+    "branch (what form_extreme / merge / the recovery routines use); its agreement with the value model (heap_run_is_run2) "
+    "is proved for histories whose abscissae are always or never given, the mixed case is tied by the heap stream only; "
+    "init_extreme_cat's copies (srs.ext deepcopy, new NaN arrays) are listed in the model header and "
+    "covered by the oracle rule only; calc_stat_ext is proved per row over a field with an abstract square root; the SRS of "
+    "the response PSD uses C03's vrs model with the oscillator frequencies on the analysis grid (no interpolation); "
+    "solvepsd(use_apply_uf=True) is driven with vector modal data only; DR_Results.split / strip_hists / set_dr_order / "
+    "rptext-style reports are text and are not modelled"
 )
 MANIFEST = {
     "level_text": "proof",
     "level_note": "Lean theorems about the exact per-row model of extrema/maxmin/envelopes/per-case records, the time, frf and "
-                  "PSD recovery pipelines (PSD = sum over forces, rms = sqrt of the trapezoid area, peaks mirrored), merge / "
-                  "_store_maxmin refusals, calc_ext, and apply_uf with its explicit cache for vector and full modal matrices "
-                  "(full: block arithmetic with the stiffness factorisation as data, Kee * KeeInv = 1, and the whole routine "
-                  "without residual-flexibility modes); tie by exact / numeric correspondence on the real code; the partition "
-                  "extraction of the full path with residual-flexibility modes, calc_stat_ext and delete_extreme are tied / "
-                  "measured only",
+                  "PSD recovery pipelines (PSD = sum over forces, rms = sqrt of the trapezoid area, peaks mirrored, SRS envelope "
+                  "of PSD responses = maximum over cases), merge / _store_maxmin refusals, calc_ext, calc_stat_ext (mean +/- k "
+                  "std with ddof 1, order independent, monotone in k), apply_uf with its explicit cache for vector and full "
+                  "modal matrices (full: the whole routine with and without residual-flexibility modes given as index list, "
+                  "mask or integer; rows rb | el | rf written exactly once; stiffness factorisations as data with K * KInv = 1), "
+                  "nested results (delete_extreme, form_extreme idempotent and restoring after delete_extreme, parts kept, the "
+                  "nested envelope = extrema applied recursively, traversal order of all_categories / all_base_events) and a "
+                  "store model of cla.extrema with the frame theorem that forming an envelope never writes into its parts and "
+                  "the refinement theorem that it computes the value model's running extreme; tie by exact / numeric correspondence on the real "
+                  "code; measured only: that scipy's LU inverts the partitions, the vrs kernel (C03's model at 1e-9)",
     "technique": "Lean 4 proof + differential correspondence + model-free oracle",
 }
 
@@ -676,6 +718,9 @@ def gen_uf(rng, full=False):
     rfmode = rng.choice(["index", "bool"]) if rf else None
     if rf and len(rf) == 1 and rng.random() < 0.3:
         rfmode = "scalar"
+    rforder = None
+    if rfmode == "index" and len(rf) > 1 and rng.random() < 0.5:
+        rforder = rf[::-1]  # an index array need not be sorted: np.ix_ / fancy indexing take it as it comes
     nt = rng.randint(1, 4)
     q = lambda: Fraction(rng.randint(-8, 8), rng.choice([1, 2, 4]))
     mkind = rng.choice(["none", "vec", "vec"])
@@ -694,7 +739,7 @@ def gen_uf(rng, full=False):
     if rng.random() < 0.3 and (Fraction(1),) * 4 not in ufs:
         ufs[rng.randrange(len(ufs))] = (Fraction(1),) * 4
     pg = [[q() for _ in range(nt)] for _ in range(rng.randint(1, 2))] if rng.random() < 0.6 else None
-    spec = {"kind": "uf", "n": n, "nrb": nrb, "rf": rf, "rfmode": rfmode, "m": m, "b": b, "k": k,
+    spec = {"kind": "uf", "n": n, "nrb": nrb, "rf": rf, "rfmode": rfmode, "rforder": rforder, "m": m, "b": b, "k": k,
             "sol": sol, "soli": soli, "ufs": ufs, "pg": pg, "full": False}
     if full:
         # full matrices: k 2-D (symmetric or not; the elastic and rf partitions are what the routine uses), m absent /
@@ -788,7 +833,7 @@ def uf_arrays(spec):
         elif spec["rfmode"] == "scalar":
             rf = spec["rf"][0]
         else:
-            rf = np.array(spec["rf"])
+            rf = np.array(spec.get("rforder") or spec["rf"])
     ufs = [tuple(float(fr(v)) for v in u) for u in spec["ufs"]]
     return sol, m, b, k, rf, ufs
 
@@ -895,12 +940,23 @@ def uf_impl_inverse(spec):
     return inv(save["lup_elastic"]), inv(save["lup_rf"])
 
 
+def rf_token(spec):
+    """`rfmodes` in the form the implementation is given: none | scalar i | idx i... | mask 0/1..."""
+    if not spec["rf"]:
+        return "none"
+    if spec["rfmode"] == "scalar":
+        return "scalar %d" % spec["rf"][0]
+    if spec["rfmode"] == "bool":
+        return "mask " + " ".join("1" if i in spec["rf"] else "0" for i in range(spec["n"]))
+    return "idx " + " ".join(str(i) for i in (spec.get("rforder") or spec["rf"]))
+
+
 def uffull_requests(spec, kinvE, kinvR):
     """[given-re, gauss-re(, given-im, gauss-im)]"""
     sol, m, b, k, rf, ufs = uf_arrays(spec)
     n, nrb = spec["n"], spec["nrb"]
     nt = sol.a.shape[1]
-    head = ["%d %d %d" % (n, nrb, nt), " ".join(str(i) for i in spec["rf"]),
+    head = ["%d %d %d" % (n, nrb, nt), rf_token(spec),
             "none" if m is None else (("vec " if m.ndim == 1 else "mat ") + fbits(m)),
             ("vec " if b.ndim == 1 else "mat ") + fbits(b), fbits(k)]
     ufsegs = [" ".join(f2b(x) for x in u) for u in ufs]
@@ -931,14 +987,26 @@ def uffull_parse(rep):
 
 
 class _ToyFS:
-    """stands for pyyeti.ode.SolveUnc: `fsolve` returns the unit-force response d = G * genforce (a = v = 0)"""
+    """stands for pyyeti.ode.SolveUnc: `fsolve` returns the unit-force response d = G * genforce (a = v = 0); with
+    modal data (`solvepsd(use_apply_uf=True)`) also a = A * genforce, v = V * genforce and the members solvepsd reads:
+    n, rf, rfsize, m_orig, b_orig, k_orig"""
 
-    def __init__(self, G):
-        self.G = G
+    def __init__(self, G, A=None, V=None, au=None):
+        self.G, self.A, self.V = G, A, V
+        if au is not None:
+            self.n = len(au["k"])
+            self.rf = np.array(au["rf"], dtype=int) if au["rfform"] == "index" else \
+                np.array([i in au["rf"] for i in range(self.n)])
+            self.rfsize = len(au["rf"])
+            self.m_orig = None if au["m"] is None else np.array(au["m"], dtype=float)
+            self.b_orig = np.array(au["b"], dtype=float)
+            self.k_orig = np.array(au["k"], dtype=float)
 
     def fsolve(self, genforce, freq, **kwargs):
         d = self.G * genforce
-        return SimpleNamespace(a=np.zeros_like(d), v=np.zeros_like(d), d=d)
+        if self.A is None:
+            return SimpleNamespace(a=np.zeros_like(d), v=np.zeros_like(d), d=d)
+        return SimpleNamespace(a=self.A * genforce, v=self.V * genforce, d=d)
 
 
 def gen_psd(rng, event="Psd"):
@@ -977,9 +1045,89 @@ def gen_psd(rng, event="Psd"):
         G = [[rng.randint(-3, 3) for _ in range(nf)] for _ in range(r)]
         Gi = [[rng.randint(-3, 3) for _ in range(nf)] for _ in range(r)] if cplx else None
         cases.append({"F": F, "t": t, "G": G, "Gi": Gi})
-    return {"kind": "psd", "event": event, "rows": r, "labels": labels, "js": js, "freq": freq, "cases": cases,
+    spec = {"kind": "psd", "event": event, "rows": r, "labels": labels, "js": js, "freq": freq, "cases": cases,
             "pf": rng.choice([3.0, 3.0, 2.5, 1.0]), "trim": rng.random() < 0.3, "dup": dup, "badfreq": badfreq,
-            "histpv": rng.choice(["all", None, "first"])}
+            "histpv": rng.choice(["all", None, "first"]), "srs": None, "applyuf": None}
+    g = random_like(rng)
+    if g.random() < 0.5:
+        # SRS of the response PSD (dosrs=True -> srs.vrs): oscillator frequencies inside the analysis grid
+        nfn = g.randint(1, min(3, nf))
+        spec["srs"] = {"Qs": [10] if g.random() < 0.5 else [10, 25], "pv": sorted(g.sample(range(r), g.randint(1, r))),
+                       "fn": sorted(g.sample(range(nf), nfn)), "resp_time": g.choice([None, None, 20.0]),
+                       "eqsine": g.random() < 0.3, "conv": g.choice([1.0, 1.0, 2.0])}
+    if g.random() < 0.4:
+        # solvepsd(use_apply_uf=True): the rows are the modes; modal data and non-unit factors as in the uf stream
+        nrb = g.choice([0, 0, 1, 2])
+        nrb = min(nrb, r - 1)
+        nonrb = list(range(nrb, r))
+        nrf = min(g.choice([0, 0, 1, 2]), len(nonrb) - 1)
+        rf = sorted(g.sample(nonrb, nrf)) if nrf else []
+        spec["applyuf"] = {
+            "nrb": nrb, "rf": rf, "rfform": g.choice(["index", "bool"]),
+            "m": None if g.random() < 0.3 else [float(g.randint(1, 5)) for _ in range(r)],
+            "b": [g.randint(0, 4) / 2.0 for _ in range(r)],
+            "k": [0.0 if i < nrb else g.choice([-3, 1, 2, 3, 5, 8]) / g.choice([1.0, 2.0]) for i in range(r)],
+            "uf": [g.choice([1.0, 1.0, 1.25, 1.5, 2.0, 0.5]) for _ in range(4)]}
+        for c in cases:
+            c["A"] = [[g.randint(-3, 3) for _ in range(nf)] for _ in range(r)]
+            c["V"] = [[g.randint(-3, 3) for _ in range(nf)] for _ in range(r)]
+            c["Ai"] = [[g.randint(-3, 3) for _ in range(nf)] for _ in range(r)] if cplx else None
+            c["Vi"] = [[g.randint(-3, 3) for _ in range(nf)] for _ in range(r)] if cplx else None
+    return spec
+
+
+def random_like(rng):
+    """a second generator seeded from the first: new features draw from it, the older streams keep their draws"""
+    import random
+
+    return random.Random(rng.randrange(1 << 30))
+
+
+def _cplx(c, re, im):
+    a = np.array(c[re], dtype=float)
+    return a + (1j * np.array(c[im], dtype=float) if c.get(im) is not None else 0j)
+
+
+def psd_sol(spec, k):
+    """modal unit-force solutions of case k (use_apply_uf): list over forces of (a, v, d), each (modes, nf) complex"""
+    c = spec["cases"][k]
+    t = np.array(c["t"], dtype=float)
+    G, A, V = _cplx(c, "G", "Gi"), _cplx(c, "A", "Ai"), _cplx(c, "V", "Vi")
+    return [(A * t[:, [i]], V * t[:, [i]], G * t[:, [i]]) for i in range(t.shape[1])]
+
+
+def psd_uf_specs(spec, k):
+    """the unit-force solutions of case k as `uf` stream specs (one per force) for the Rat model of apply_uf"""
+    au = spec["applyuf"]
+    q = lambda x: json_fr(Fraction(float(x)))
+    out = []
+    for a, v, d in psd_sol(spec, k):
+        cplx = spec["cases"][k]["Gi"] is not None
+        part = lambda f: {"a": [[q(x) for x in row] for row in f(a)], "v": [[q(x) for x in row] for row in f(v)],
+                          "d": [[q(x) for x in row] for row in f(d)]}
+        out.append({"kind": "uf", "n": spec["rows"], "nrb": au["nrb"], "rf": au["rf"],
+                    "m": None if au["m"] is None else [q(x) for x in au["m"]], "b": [q(x) for x in au["b"]],
+                    "k": [q(x) for x in au["k"]], "sol": part(np.real), "soli": part(np.imag) if cplx else None,
+                    "ufs": [[q(x) for x in au["uf"]]]})
+    return out
+
+
+def psd_resp_documented(spec, k):
+    """what apply_uf documents for the displacement, straight from its docstring (oracle side; plain numpy)"""
+    au = spec["applyuf"]
+    ruf, euf, duf, suf = au["uf"]
+    n = spec["rows"]
+    m = np.ones(n) if au["m"] is None else np.array(au["m"])
+    b, kk = np.array(au["b"]), np.array(au["k"])
+    el = [i for i in range(au["nrb"], n) if i not in au["rf"]]
+    out = []
+    for a, v, d in psd_sol(spec, k):
+        r = np.zeros_like(d)
+        av = m[el, None] * a[el] + b[el, None] * v[el]
+        r[el] = euf * (suf * (av + kk[el, None] * d[el]) - duf * av) / kk[el, None]
+        r[au["rf"]] = euf * suf * d[au["rf"]]
+        out.append(r)
+    return out
 
 
 def psd_resp(spec, k):
@@ -990,13 +1138,31 @@ def psd_resp(spec, k):
     return [G * t[:, [i]] for i in range(t.shape[1])]
 
 
+def psd_fn(spec):
+    return np.array([spec["freq"][i] for i in spec["srs"]["fn"]])
+
+
+def psd_pf(spec):
+    """peak factor per oscillator frequency: `peak_factor`, or sqrt(2 log(resp_time f)) when resp_time is given"""
+    sr = spec["srs"]
+    fn = psd_fn(spec)
+    if sr["resp_time"] is not None:
+        return np.sqrt(2 * np.log(sr["resp_time"] * fn))
+    return np.full(len(fn), float(spec["pf"]))
+
+
 def build_psd(spec, order=None, force_perm=False, scale=1.0):
     """returns (results, error kind or None); cases are solved and recovered one after the other"""
     from pyyeti import cla
 
-    uf = (1, 1, 1, 1)
-    drdefs = cla.DR_Def(dict(se=0, uf_reds=uf, srsfrq=np.array([5.0, 10.0])))
+    au, sr = spec.get("applyuf"), spec.get("srs")
+    uf = (1, 1, 1, 1) if au is None else tuple(au["uf"])
+    drdefs = cla.DR_Def(dict(se=0, uf_reds=uf, srsfrq=np.array([5.0, 10.0]) if sr is None else psd_fn(spec)))
     kw = dict(name="cat", desc="toy category", labels=["row%d" % i for i in range(spec["rows"])], drfunc="sol.d")
+    if sr is not None:
+        kw.update(srsQs=list(sr["Qs"]), srspv=list(sr["pv"]), srsconv=sr["conv"])
+        if sr["eqsine"]:
+            kw["srsopts"] = {"eqsine": True}
     if spec["histpv"] == "all":
         kw["histpv"] = "all"
     elif spec["histpv"] == "first":
@@ -1020,21 +1186,63 @@ def build_psd(spec, order=None, force_perm=False, scale=1.0):
                 freq = freq.copy()
                 freq[-1] += 1.0
             try:
-                res.solvepsd({"nrb": 0}, spec["labels"][k], DR, _ToyFS(G), F, t, freq,
-                             allow_force_trimming=spec["trim"])
-                res.psd_data_recovery(spec["labels"][k], DR, n, spec["js"][k], dosrs=False, peak_factor=spec["pf"])
+                if au is None:
+                    res.solvepsd({"nrb": 0}, spec["labels"][k], DR, _ToyFS(G), F, t, freq,
+                                 allow_force_trimming=spec["trim"])
+                else:
+                    res.solvepsd({"nrb": au["nrb"]}, spec["labels"][k], DR,
+                                 _ToyFS(G, _cplx(c, "A", "Ai"), _cplx(c, "V", "Vi"), au), F, t, freq,
+                                 use_apply_uf=True, allow_force_trimming=spec["trim"])
+                res.psd_data_recovery(spec["labels"][k], DR, n, spec["js"][k], dosrs=sr is not None,
+                                      peak_factor=spec["pf"], resp_time=None if sr is None else sr["resp_time"])
             except ValueError:
                 return res, "value-error"
     return res, None
 
 
-def psd_requests(spec, res, err):
-    """per (case, row) one `psdnum`; then `store`, `freqstore`; then, per row, `psdext` on the implementation's own peaks"""
+def psd_srs_requests(spec, R_all):
+    """per (case, Q, srs row) one `psdsrs`: C03's vrs model on the model's own accumulated PSD"""
+    sr = spec["srs"]
+    f, fn, pf = fbits(spec["freq"]), fbits(psd_fn(spec)), fbits(psd_pf(spec))
+    reqs = []
+    for k in range(len(spec["labels"])):
+        F = spec["cases"][k]["F"]
+        for q in sr["Qs"]:
+            for i in sr["pv"]:
+                segs = ["psdsrs %s %s %d" % (f2b(sr["conv"]), f2b(q), 1 if sr["eqsine"] else 0), f, fn, pf]
+                for a, Fa in enumerate(F):
+                    segs += [fbits(Fa), fbits(R_all[k][a][i].real), fbits(R_all[k][a][i].imag)]
+                reqs.append(" ; ".join(segs))
+    return reqs
+
+
+def psd_srs_compare(spec, res, replies):
+    """the stored per-case spectra against the model (numeric)"""
+    sr = spec["srs"]
+    cat = res["cat"]
+    diffs = []
+    it = iter(replies)
+    for k in range(len(spec["labels"])):
+        j = spec["js"][k]
+        for q in sr["Qs"]:
+            for a, i in enumerate(sr["pv"]):
+                model = [b2f(t) for t in next(it).split()]
+                bad = _close(cat.srs.srs[q][j][a], model, 1e-9)
+                if bad is not None and not diffs:
+                    diffs.append(("srs of psd Q%s row%d case%d" % (q, i, k), cat.srs.srs[q][j][a].tolist(), model))
+    if cat.srs.type != ("eqsine" if sr["eqsine"] else "srs"):
+        diffs.append(("srs.type", cat.srs.type, sr["eqsine"]))
+    return diffs
+
+
+def psd_requests(spec, res, err, R_all=None):
+    """per (case, row) one `psdnum`; then `store`, `freqstore`; then, per row, `psdext` on the implementation's own peaks.
+    R_all: the unit-force responses the MODEL of apply_uf gives (use_apply_uf), else the toy solver's own"""
     reqs = []
     f = fbits(spec["freq"])
     n = len(spec["labels"])
     for k in range(n):
-        R = psd_resp(spec, k)
+        R = psd_resp(spec, k) if R_all is None else R_all[k]
         F = spec["cases"][k]["F"]
         for i in range(spec["rows"]):
             segs = ["psdnum " + f2b(spec["pf"]), f]
@@ -1232,6 +1440,9 @@ def gen_stat(rng):
     r = len(spec["mx"])
     spec.update(kind="stat", mx=[_values(rng, n, "half", 0.0) for _ in range(r)],
                 mn=[_values(rng, n, "half", 0.0) for _ in range(r)], cases=["c%d" % j for j in range(n)], srs=None)
+    if rng.random() < 0.4:  # per-case spectra: srs.ext[Q] = mean + k*std(ddof=1) over the cases
+        m0 = rng.randint(1, 2)
+        spec["srs"] = [[_values(rng, 2, "half", 0.0) for _ in range(m0)] for _ in range(n)]
     return spec
 
 
@@ -1305,6 +1516,262 @@ def _px(p, i, col):
     return "nan" if p.ext_x is None else ftok(p.ext_x[i, col])
 
 
+# ---------------------------------------------------------------------------------------
+# nested results: delete_extreme / form_extreme at every level / the traversal generators (tree stream)
+
+
+def gen_tree(rng):
+    r = rng.randint(1, 3)
+    hasx = rng.random() < 0.6
+    cats = ["cat"] if rng.random() < 0.6 else ["cat", "cat2"]
+    style = rng.choice(["small", "pm", "half"])
+    nanp = rng.choice([0.0, 0.0, 0.2])
+    cnt = {"e": 0, "g": 0}
+
+    def base():
+        name = "E%d" % cnt["e"]
+        cnt["e"] += 1
+        cs = []
+        for c in cats:
+            k = rng.random()
+            maxcase = "%s-%s-mx" % (name, c) if k < 0.5 else ["%s-%s-mx%d" % (name, c, i) for i in range(r)]
+            k = rng.random()
+            mincase = None if k < 0.4 else ("%s-%s-mn" % (name, c) if k < 0.7 else ["%s-%s-mn%d" % (name, c, i) for i in range(r)])
+            cs.append({"mxmn": [_values(rng, 2, style, nanp) for _ in range(r)], "maxcase": maxcase, "mincase": mincase,
+                       "xv": [[float(rng.randint(0, 9)) for _ in range(2)] for _ in range(r)] if hasx else None})
+        return {"type": "base", "name": name, "cats": cs}
+
+    def group(depth, name):
+        nk = rng.randint(1, 3)
+        if depth > 0 and rng.random() < 0.06:
+            nk = 0  # an empty DR_Results
+        kids = []
+        for _ in range(nk):
+            if depth < 2 and rng.random() < (0.5 if depth == 0 else 0.3):
+                cnt["g"] += 1
+                kids.append(group(depth + 1, "G%d" % cnt["g"]))
+            else:
+                kids.append(base())
+        # stale 'extreme' entries: formed before the last member was added (so it is out of date and sits in the
+        # middle of the dictionary), or formed over all members with another doappend
+        stale = rng.choice([None, None, "before-last", "all"]) if nk else None
+        return {"type": "group", "name": name, "kids": kids, "stale": stale, "stale_d": rng.randint(0, 3)}
+
+    root = group(0, "Top")
+    if not any(k["type"] == "group" for k in root["kids"]) and rng.random() < 0.5:
+        cnt["g"] += 1
+        root["kids"].append(group(1, "G%d" % cnt["g"]))
+    return {"kind": "tree", "rows": r, "cats": cats, "root": root, "d": rng.randint(0, 3)}
+
+
+def build_tree(spec):
+    """the nested DR_Results as the spec describes it, stale 'extreme' entries included; form_extreme NOT yet called"""
+    from pyyeti import cla
+
+    uf = (1, 1, 1, 1)
+    with warnings.catch_warnings():
+        warnings.simplefilter("ignore")
+        drdefs = cla.DR_Def(dict(se=0, uf_reds=uf))
+        for c in spec["cats"]:
+            drdefs.add(name=c, desc="toy category " + c, labels=["row%d" % i for i in range(spec["rows"])], drfunc="no-func")
+        DR = cla.DR_Event()
+        DR.add(None, drdefs)
+
+        def mk(node):
+            if node["type"] == "base":
+                res = DR.prepare_results("mission", node["name"])
+                for c, e in zip(spec["cats"], node["cats"]):
+                    res.add_maxmin(c, arr(e["mxmn"]), copy.deepcopy(e["maxcase"]), copy.deepcopy(e["mincase"]),
+                                   None if e["xv"] is None else arr(e["xv"]), "time")
+                return res
+            g = cla.DR_Results()
+            nk = len(node["kids"])
+            for i, kid in enumerate(node["kids"]):
+                if node["stale"] == "before-last" and i == nk - 1 and i > 0:
+                    g.form_extreme("Stale", doappend=node["stale_d"])
+                g[kid["name"]] = mk(kid)
+            if node["stale"] == "all":
+                g.form_extreme("Stale", doappend=node["stale_d"])
+            return g
+
+        return mk(spec["root"])
+
+
+def ser_tree(res, i):
+    """row i of a nested DR_Results in the driver's tree grammar"""
+    if len(res) == 0:
+        return "G 0"
+    if isinstance(next(iter(res.values())), SimpleNamespace):
+        return "B %d " % len(res) + " ".join(
+            "%s %s %s %s %s %s %s" % (nm, ftok(c.ext[i, 0]), _px(c, i, 0), c.maxcase[i], ftok(c.ext[i, 1]), _px(c, i, 1),
+                                      c.mincase[i]) for nm, c in res.items())
+    return "G %d " % len(res) + " ".join("%s %s" % (k, ser_tree(v, i)) for k, v in res.items())
+
+
+def _fpath(p):
+    return "/".join(p) if p else "."
+
+
+def tree_run(spec):
+    """requests and the replies the driver should give if the implementation agrees with the model"""
+    top = build_tree(spec)
+    r = spec["rows"]
+    before = [ser_tree(top, i) for i in range(r)]
+    with warnings.catch_warnings():
+        warnings.simplefilter("ignore")
+        top.form_extreme("Envelope", doappend=spec["d"])
+        after = [ser_tree(top, i) for i in range(r)]
+        bad_cases = _tree_cases(top)
+        cats = " , ".join("%s %s" % (nm, _fpath(path)) for nm, c, path in top.all_categories()) or "."
+        bases = " , ".join("%s %s %s" % (nm, _fpath(path), ",".join(b.keys()) or ".")
+                           for nm, b, path in top.all_base_events("Top")) or "."
+        nonb = " , ".join("%s %s %s" % (nm, _fpath(path), ",".join(b.keys()) or ".")
+                          for nm, b, path in top.all_nonbase_events("Top")) or "."
+        dele = copy.deepcopy(top)
+        dele.delete_extreme()
+        deleted = [ser_tree(dele, i) for i in range(r)]
+        dele.form_extreme("Envelope", doappend=spec["d"])  # delete_extreme followed by form_extreme restores
+        restored = [ser_tree(dele, i) for i in range(r)]
+        top.form_extreme("Envelope", doappend=spec["d"])  # forming again from the same parts
+        again = [ser_tree(top, i) for i in range(r)]
+    reqs, want = [], []
+    for i in range(r):
+        reqs += ["treeform %d ; %s" % (spec["d"], before[i]), "treeform %d ; %s" % (spec["d"], after[i]),
+                 "treedel ; %s" % after[i], "treeform %d ; %s" % (spec["d"], deleted[i])]
+        want += [after[i], again[i], deleted[i], restored[i]]
+    reqs += ["treecats ; " + after[0], "treebases ; " + after[0], "treenonbases ; " + after[0]]
+    want += [cats, bases, nonb]
+    return reqs, want, bad_cases, (after == again == restored)
+
+
+def _tree_cases(res, path=()):
+    """first group whose 'extreme' is not its last key or whose categories do not list the other keys as `cases`"""
+    if len(res) == 0 or isinstance(next(iter(res.values())), SimpleNamespace):
+        return None
+    keys = list(res.keys())
+    if keys.count("extreme") != 1 or keys[-1] != "extreme":
+        return ("/".join(path) or "Top", keys)
+    for c in res["extreme"].values():
+        if list(c.cases) != keys[:-1]:
+            return ("/".join(path) or "Top", list(c.cases))
+    for k in keys[:-1]:
+        bad = _tree_cases(res[k], path + (k,))
+        if bad:
+            return bad
+    return None
+
+
+def tree_shape(node):
+    """(depth, number of stale levels, has an empty group)"""
+    if node["type"] == "base":
+        return 0, 0, False
+    sub = [tree_shape(k) for k in node["kids"]]
+    return (1 + max([d for d, _, _ in sub] or [0]), (1 if node["stale"] else 0) + sum(s for _, s, _ in sub),
+            (not node["kids"]) or any(e for _, _, e in sub))
+
+
+# ---------------------------------------------------------------------------------------
+# object identity: the accumulator of cla.extrema / form_extreme shares nothing with its inputs (heap stream)
+
+
+def gen_heap_hist(rng):
+    h = gen_hist(rng, 2)
+    for c in h["calls"]:
+        c["casenum"] = None
+    if h["rows"] == 1 and rng.random() < 0.25:
+        # abscissae given by some calls only (the whole-array copy / NaN branches of _put_time; one row, because in
+        # these branches a copy triggered by one row changes the other rows as well)
+        for c in h["calls"]:
+            c["ext_x"] = [[float(rng.randint(0, 9)), float(rng.randint(0, 9))]] if rng.random() < 0.6 else None
+        h["mixedx"] = True
+    return h
+
+
+def heap_hist_run(h):
+    """all inputs exist before the first call and are handed in as they are (no copies made by the harness)"""
+    from pyyeti import cla
+
+    objs = []
+    for c in h["calls"]:
+        mm = SimpleNamespace(ext=arr(c["ext"]), ext_x=None if c["ext_x"] is None else arr(c["ext_x"]))
+        mxc = c["maxcase"] if isinstance(c["maxcase"], str) else list(c["maxcase"])
+        mnc = c["mincase"] if (c["mincase"] is None or isinstance(c["mincase"], str)) else list(c["mincase"])
+        objs.append((mm, mxc, mnc))
+    cur = SimpleNamespace(ext=None, ext_x=None, maxcase=None, mincase=None)
+    for mm, mxc, mnc in objs:
+        cla.extrema(cur, mm, mxc, mnc)
+    return objs, cur
+
+
+def heap_hist_io(h):
+    """per row: the `heap` request and the reply expected from the implementation's objects after the history"""
+    objs, cur = heap_hist_run(h)
+    reqs, want = [], []
+    for i in range(h["rows"]):
+        vals, xs, labs, calls = [], [], [], []
+        vals_a, xs_a, labs_a = [], [], []
+        for c, (mm, mxc, mnc) in zip(h["calls"], objs):
+            e = len(vals)
+            vals.append("%s %s" % (ftok_n(c["ext"][i][0]), ftok_n(c["ext"][i][1])))
+            vals_a.append("%s %s" % (ftok(mm.ext[i, 0]), ftok(mm.ext[i, 1])))
+            x = "-"
+            if c["ext_x"] is not None:
+                x = str(len(xs))
+                xs.append("%s %s" % (ftok(c["ext_x"][i][0]), ftok(c["ext_x"][i][1])))
+                xs_a.append("%s %s" % (ftok(mm.ext_x[i, 0]), ftok(mm.ext_x[i, 1])))
+            args = []
+            for given, obj in ((c["maxcase"], mxc), (c["mincase"], mnc)):
+                if given is None:
+                    args.append("-")
+                elif isinstance(given, str):
+                    args.append("s:" + given)
+                else:
+                    args.append("l:%d" % len(labs))
+                    labs.append(given[i])
+                    labs_a.append(obj[i])
+            calls.append("%d %s %s %s" % (e, x, args[0], args[1]))
+        reqs.append("heap 1 ; %s ; %s ; %s ; %s" % (" ".join(vals), " ".join(xs), " ".join(labs), " ; ".join(calls)))
+        curs = "%s %s %s %s %s %s" % (ftok(cur.ext[i, 0]), _px(cur, i, 0), cur.maxcase[i],
+                                      ftok(cur.ext[i, 1]), _px(cur, i, 1), cur.mincase[i])
+        want.append("%s | %s | %s | %s" % (" ".join(vals_a), " ".join(xs_a), " ".join(labs_a), curs))
+    return reqs, want
+
+
+def heap_form_io(spec, evs, top):
+    """the same for form_extreme over add_maxmin events: the parts are the events' categories"""
+    d = spec["doappend"]
+    reqs, want = [], []
+    ext = top["extreme"]["cat"]
+    for i in range(spec["rows"]):
+        vals, xs, labs, calls = [], [], [], []
+        vals_a, xs_a, labs_a = [], [], []
+        for n_e, (e, res) in enumerate(zip(spec["events"], evs)):
+            c = res["cat"]
+            vals.append("%s %s" % (ftok_n(e["mxmn"][i][0]), ftok_n(e["mxmn"][i][1])))
+            vals_a.append("%s %s" % (ftok(c.ext[i, 0]), ftok(c.ext[i, 1])))
+            x = "-"
+            if e["xv"] is not None:
+                x = str(n_e)
+                xs.append("%s %s" % (ftok(e["xv"][i][0]), ftok(e["xv"][i][1])))
+                xs_a.append("%s %s" % (ftok(c.ext_x[i, 0]), ftok(c.ext_x[i, 1])))
+            lmx = e["maxcase"] if isinstance(e["maxcase"], str) else e["maxcase"][i]
+            lmn = lmx if e["mincase"] is None else (e["mincase"] if isinstance(e["mincase"], str) else e["mincase"][i])
+            labs += [lmx, lmn]
+            labs_a += [c.maxcase[i], c.mincase[i]]
+            if d == 3:
+                a, b = "l:%d" % (2 * n_e), "l:%d" % (2 * n_e + 1)
+            elif d == 1:
+                a, b = "s:%s,%s" % (e["event"], lmx), "s:%s,%s" % (e["event"], lmn)
+            else:
+                a = b = "s:" + e["event"]
+            calls.append("%d %s %s %s" % (n_e, x, a, b))
+        reqs.append("heap 1 ; %s ; %s ; %s ; %s" % (" ".join(vals), " ".join(xs), " ".join(labs), " ; ".join(calls)))
+        curs = "%s %s %s %s %s %s" % (ftok(ext.ext[i, 0]), _px(ext, i, 0), ext.maxcase[i],
+                                      ftok(ext.ext[i, 1]), _px(ext, i, 1), ext.mincase[i])
+        want.append("%s | %s | %s | %s" % (" ".join(vals_a), " ".join(xs_a), " ".join(labs_a), curs))
+    return reqs, want
+
+
 def permuted_event(spec, perm):
     """the same toy event with its cases fed in another order"""
     out = dict(spec)
@@ -1320,6 +1787,23 @@ def permuted_event(spec, perm):
 
 # ---------------------------------------------------------------------------------------
 # correspondence
+
+
+def _uffull_branches(ctx, spec):
+    """what a generated full-matrix case exercises (counted whether or not the implementation answers)"""
+    nontriv = spec["nrb"] < spec["n"]
+    ctx.count("branch:uf-full-layout-" + spec["layout"])
+    ctx.count("branch:uf-full-m-" + spec["mform"])
+    ctx.count("branch:uf-full-b-" + spec["bform"])
+    if spec["rf"] and nontriv:
+        ctx.count("branch:uf-full-with-rf")
+        ctx.count("branch:uf-full-rf-" + spec["rfmode"])
+        if spec.get("rforder"):
+            ctx.count("branch:uf-full-rf-unsorted")
+    if spec["coupled"]:
+        ctx.count("branch:uf-full-coupled")
+    if spec["nonsym"] and nontriv:
+        ctx.count("branch:uf-full-nonsymmetric")
 
 
 def correspondence(ctx):
@@ -1404,7 +1888,13 @@ def correspondence(ctx):
         add("uf", u, rq, None)
     for _ in range(ctx.pick(500, 3000)):
         u = gen_uf(rng, full=True)
-        ke, kr = uf_impl_inverse(u)
+        try:
+            ke, kr = uf_impl_inverse(u)
+        except Exception as e:  # the model never refuses these inputs
+            ctx.case(u, nontrivial=False, branch="stream:uf-full")
+            _uffull_branches(ctx, u)
+            ctx.disagree("uf-full-raises", u, "%s: %s" % (type(e).__name__, str(e)[:200]), "a solution")
+            continue
         add("uf-full", u, uffull_requests(u, ke, kr), (ke, kr))
     for a, (top, evs, first) in zip(addmms, addbuilt):
         parts = [res["cat"] for res in evs]
@@ -1414,6 +1904,19 @@ def correspondence(ctx):
         again = _level_replies(top["extreme"]["cat"], a["rows"], [])
         if again != first or list(top.keys()).count("extreme") != 1 or list(top["extreme"]["cat"].cases) != names:
             ctx.disagree("form-twice", a, again, first)
+        rq, want = heap_form_io(a, evs, top)
+        add("heap-form", a, rq, want)
+    for _ in range(ctx.pick(700, 5000)):
+        h = gen_heap_hist(rng)
+        try:
+            rq, want = heap_hist_io(h)
+        except Exception as e:  # the model never refuses a well-formed history
+            rq, want = ["heap 1 ;  ;  ;  "], ["exception:" + type(e).__name__]
+        add("heap-hist", h, rq, want)
+    for _ in range(ctx.pick(150, 1000)):
+        t = gen_tree(rng)
+        rq, want, bad_cases, _ = tree_run(t)
+        add("tree", t, rq, (want, bad_cases))
     psds = [gen_psd(rng) for _ in range(ctx.pick(250, 1500))]
     nperm = ctx.pick(4, 60)
     for e in list(psds):
@@ -1422,11 +1925,43 @@ def correspondence(ctx):
             for perm in itertools.permutations(range(len(e["labels"]))):
                 if list(perm) != sorted(perm):
                     psds.append(permuted_event(e, perm))
+    # solvepsd(use_apply_uf=True): first the model of apply_uf on every unit-force solution (Rat, exact), then the PSD
+    # accumulation on the responses THE MODEL gives
+    ufreqs, ufidx = [], {}
+    for n_ev, e in enumerate(psds):
+        if e["applyuf"] is not None:
+            for k in range(len(e["labels"])):
+                for a, us in enumerate(psd_uf_specs(e, k)):
+                    rq = [uf_request(us, "re")] + ([uf_request(us, "im")] if us["soli"] is not None else [])
+                    ufidx[(n_ev, k, a)] = (len(ufreqs), len(rq))
+                    ufreqs += rq
+    ufrep = drv.ask(ufreqs) if ufreqs else []
+
+    def model_resp(n_ev, e):
+        out = []
+        for k in range(len(e["labels"])):
+            per = []
+            for a in range(len(e["cases"][k]["F"])):
+                i0, cnt = ufidx[(n_ev, k, a)]
+                d = uf_parse(ufrep[i0])[0, :, :, 2]
+                if cnt == 2:
+                    d = d + 1j * uf_parse(ufrep[i0 + 1])[0, :, :, 2]
+                per.append(d + 0j)
+            out.append(per)
+        return out
+
     psdbuilt = {}
     for n_ev, e in enumerate(psds):
         res, err = build_psd(e)
         psdbuilt[n_ev] = (res, err)
-        add("psd", e, psd_requests(e, res, err), n_ev)
+        R_all = model_resp(n_ev, e) if e["applyuf"] is not None else None
+        add("psd", e, psd_requests(e, res, err, R_all), n_ev)
+        if not err and e["srs"] is not None:
+            Rm = R_all if R_all is not None else [psd_resp(e, k) for k in range(len(e["labels"]))]
+            add("psd-srs", e, psd_srs_requests(e, Rm), n_ev)
+            for q in e["srs"]["Qs"]:
+                stack = np.stack([res["cat"].srs.srs[q][j] for j in e["js"]])
+                add("psd-srs-env", e, env_requests(stack), (n_ev, q))
     for _ in range(ctx.pick(400, 2500)):
         m = gen_merge(rng)
         add("merge", m, [merge_request(m)], None)
@@ -1435,7 +1970,13 @@ def correspondence(ctx):
         add("calc-ext", c, calc_requests(c), calc_impl_replies(c))
     for _ in range(ctx.pick(300, 2000)):
         c = gen_stat(rng)
-        add("stat-ext", c, ["statext %s ; %s ; %s" % (f2b(c["k"]), fbits(a), fbits(b)) for a, b in zip(c["mx"], c["mn"])], None)
+        rq = ["statext %s ; %s ; %s" % (f2b(c["k"]), fbits(a), fbits(b)) for a, b in zip(c["mx"], c["mn"])]
+        if c["srs"] is not None:
+            S = np.array(c["srs"])  # cases x rows x freq
+            for a in range(S.shape[1]):
+                for b in range(S.shape[2]):
+                    rq.append("statext %s ; %s ; %s" % (f2b(c["k"]), fbits(S[:, a, b]), fbits(S[:, a, b])))
+        add("stat-ext", c, rq, None)
 
     rep = drv.ask(reqs)
     ctx.extra["driver_requests"] = len(reqs)
@@ -1512,9 +2053,6 @@ def correspondence(ctx):
             model = uf_parse(got[0])
             if spec["soli"] is not None:
                 model = model + 1j * uf_parse(got[1])
-            impl, pgs = uf_impl_all(spec)
-            impl.pop("inputs_unchanged", None)
-            impl.pop("earlier_unchanged", None)
             nontriv = spec["nrb"] < spec["n"]
             ctx.case(spec, nontrivial=nontriv, branch="stream:uf")
             ctx.count("branch:uf-all-rigid" if not nontriv else ("branch:uf-with-rf" if spec["rf"] else "branch:uf-elastic-only"))
@@ -1522,6 +2060,13 @@ def correspondence(ctx):
                 ctx.count("branch:uf-m-none")
             if spec["soli"] is not None:
                 ctx.count("branch:uf-complex")
+            try:
+                impl, pgs = uf_impl_all(spec)
+            except Exception as e:
+                ctx.disagree("uf-raises", spec, "%s: %s" % (type(e).__name__, str(e)[:200]), "a solution")
+                continue
+            impl.pop("inputs_unchanged", None)
+            impl.pop("earlier_unchanged", None)
             scale = 1.0 + float(np.max(np.abs(model))) if model.size else 1.0
             for disc, outs in impl.items():
                 for u, o in enumerate(outs):
@@ -1530,20 +2075,18 @@ def correspondence(ctx):
                         ctx.disagree("uf-" + disc, spec, {"uf": spec["ufs"][u], "max_abs_diff": err}, "Rat model")
                         break
         elif stream == "uf-full":
-            impl, pgs = uf_impl_all(spec)
+            try:
+                impl, pgs = uf_impl_all(spec)
+            except Exception as e:
+                ctx.case(spec, nontrivial=False, branch="stream:uf-full")
+                _uffull_branches(ctx, spec)
+                ctx.disagree("uf-full-raises", spec, "%s: %s" % (type(e).__name__, str(e)[:200]), "a solution")
+                continue
             unchanged = impl.pop("inputs_unchanged", True)
             impl.pop("earlier_unchanged", None)
             nontriv = spec["nrb"] < spec["n"]
             ctx.case(spec, nontrivial=nontriv, branch="stream:uf-full")
-            ctx.count("branch:uf-full-layout-" + spec["layout"])
-            ctx.count("branch:uf-full-m-" + spec["mform"])
-            ctx.count("branch:uf-full-b-" + spec["bform"])
-            if spec["rf"] and nontriv:
-                ctx.count("branch:uf-full-with-rf")
-            if spec["coupled"]:
-                ctx.count("branch:uf-full-coupled")
-            if spec["nonsym"] and nontriv:
-                ctx.count("branch:uf-full-nonsymmetric")
+            _uffull_branches(ctx, spec)
             if not unchanged:
                 ctx.disagree("uf-full-inputs", spec, "the caller's m, b or k changed", "inputs are read only")
             for tag, off in (("given", 0), ("gauss", 1)):
@@ -1588,10 +2131,61 @@ def correspondence(ctx):
                 ctx.count("branch:psd-zero-force-trimmed")
             if spec["cases"][0]["Gi"] is not None:
                 ctx.count("branch:psd-complex")
+            if spec["applyuf"] is not None and not err:
+                ctx.count("branch:psd-use-apply-uf")
+                if spec["applyuf"]["rf"]:
+                    ctx.count("branch:psd-use-apply-uf-rf")
             if spec["js"] != sorted(spec["js"]):
                 ctx.count("branch:psd-permuted-j")
             for what, a, b in diffs[:1]:
                 ctx.disagree("psd", spec, {"what": what, "impl": a}, {"what": what, "model": b})
+        elif stream == "psd-srs":
+            res, err = psdbuilt[payload]
+            ctx.case(("psd-srs", spec), nontrivial=True, branch="stream:psd-srs")
+            if spec["srs"]["eqsine"]:
+                ctx.count("branch:psd-srs-eqsine")
+            if spec["srs"]["resp_time"] is not None:
+                ctx.count("branch:psd-srs-resp-time")
+            if spec["applyuf"] is not None:
+                ctx.count("branch:psd-srs-with-apply-uf")
+            if any(g == "off-grid" for g in got):
+                raise Infra("psd-srs: oscillator frequencies left the analysis grid")
+            for what, a, b in psd_srs_compare(spec, res, got)[:1]:
+                ctx.disagree("psd-srs", spec, {"what": what, "impl": a}, {"what": what, "model": b})
+        elif stream == "psd-srs-env":
+            res, err = psdbuilt[payload[0]]
+            e = res["cat"].srs.ext[payload[1]]
+            impl = [ftok(e[a, b]) for a in range(e.shape[0]) for b in range(e.shape[1])]
+            ctx.case(("psd-srs-env", payload, spec["event"], spec["labels"], got), nontrivial=True, branch="stream:psd-srs-env")
+            if impl != got:
+                ctx.disagree("psd-srs-env", spec, impl, got)
+        elif stream in ("heap-hist", "heap-form"):
+            ctx.case((stream, spec), nontrivial=True, branch="stream:" + stream)
+            if spec.get("mixedx"):
+                ctx.count("branch:heap-abscissae-sometimes")
+            if stream == "heap-form" and spec["doappend"] == 3:
+                ctx.count("branch:heap-form-label-lists-handed-in")
+            if got != payload:
+                bad = next(j for j in range(cnt) if got[j] != payload[j])
+                ctx.disagree(stream, spec, {"row": bad, "impl": payload[bad]}, {"row": bad, "model": got[bad]})
+        elif stream == "tree":
+            want, bad_cases = payload
+            depth, nstale, empty = tree_shape(spec["root"])
+            ctx.case(spec, nontrivial=True, branch="stream:tree")
+            ctx.count("branch:tree-depth-%d" % min(depth, 3))
+            if nstale:
+                ctx.count("branch:tree-stale-extreme")
+            if empty:
+                ctx.count("branch:tree-empty-group")
+            if len(spec["cats"]) > 1:
+                ctx.count("branch:tree-two-categories")
+            if bad_cases is not None:
+                ctx.disagree("tree-cases", spec, {"group": bad_cases[0], "keys / cases": bad_cases[1]},
+                             "'extreme' is the last key and its categories list the other keys as cases")
+            if got != want:
+                bad = next(j for j in range(cnt) if got[j] != want[j])
+                what = reqs[i0 + bad].split(" ; ")[0]
+                ctx.disagree("tree-" + what.split()[0], spec, {"request": bad, "impl": want[bad]}, {"request": bad, "model": got[bad]})
         elif stream == "merge":
             out = run_merge(spec)
             ctx.case(spec, nontrivial=True, branch="stream:merge")
@@ -1618,11 +2212,17 @@ def correspondence(ctx):
         elif stream == "stat-ext":
             cat = run_calc(spec, stat=True)
             ctx.case(spec, nontrivial=True, branch="stream:stat-ext")
-            model = np.array([[b2f(t) for t in g.split()] for g in got])
+            nr = len(spec["mx"])
+            model = np.array([[b2f(t) for t in g.split()] for g in got[:nr]])
             bad = _close(cat.ext, model, 1e-12)
-            if bad is not None or cat.ext_x is not None or list(cat.maxcase) != ["Statistical"] * len(got) \
-                    or list(cat.mincase) != ["Statistical"] * len(got):
+            if bad is not None or cat.ext_x is not None or list(cat.maxcase) != ["Statistical"] * nr \
+                    or list(cat.mincase) != ["Statistical"] * nr:
                 ctx.disagree("stat-ext", spec, cat.ext.tolist(), model.tolist())
+            if spec["srs"] is not None:
+                ctx.count("branch:stat-ext-srs")
+                ms = np.array([b2f(g.split()[0]) for g in got[nr:]]).reshape(cat.srs.ext[10].shape)
+                if _close(cat.srs.ext[10], ms, 1e-12) is not None:
+                    ctx.disagree("stat-ext-srs", spec, cat.srs.ext[10].tolist(), ms.tolist())
     ctx.exhaustive = False
     ctx.require_branches([
         "stream:ext1", "stream:ext2", "stream:maxmin", "stream:time", "stream:frf", "stream:srs-env",
@@ -1639,6 +2239,12 @@ def correspondence(ctx):
         "branch:psd-zero-force-trimmed", "branch:psd-complex", "branch:psd-permuted-j", "stream:merge",
         "branch:merge-duplicate-refused", "branch:merge-rename", "stream:calc-ext", "branch:calc-ext-nan",
         "stream:stat-ext", "branch:all-case-orders",
+        "branch:uf-full-rf-index", "branch:uf-full-rf-bool", "branch:uf-full-rf-scalar", "branch:uf-full-rf-unsorted",
+        "stream:tree", "branch:tree-depth-2", "branch:tree-depth-3", "branch:tree-stale-extreme", "branch:tree-empty-group",
+        "branch:tree-two-categories", "stream:heap-hist", "stream:heap-form", "branch:heap-abscissae-sometimes",
+        "branch:heap-form-label-lists-handed-in", "stream:psd-srs", "stream:psd-srs-env", "branch:psd-srs-eqsine",
+        "branch:psd-srs-resp-time", "branch:psd-srs-with-apply-uf", "branch:psd-use-apply-uf", "branch:psd-use-apply-uf-rf",
+        "branch:stat-ext-srs",
     ])
 
 
@@ -1697,6 +2303,10 @@ def _snap_diff(before, cat):
     return None
 
 
+def spec_mixedx(h):
+    return len({c["ext_x"] is None for c in h["calls"]}) > 1
+
+
 def oracle_hist(h):
     fails = []
     cols = 1 if h["kind"] == "ext1" else 2
@@ -1740,6 +2350,8 @@ def oracle_hist(h):
                 fails.append(("extrema-%d-column-%s-label-not-attaining%s" % (cols, which, tag),
                               "row %d: %s label %r names no case attaining %r (labels %r, values %r)" % (
                                   i, which, lab, got, labs, vals), h, lab, [labs[k] for k in attain]))
+            elif spec_mixedx(h):
+                pass  # abscissae given by some calls only: outside the assumption under which ext_x is meaningful
             elif calls[0]["ext_x"] is not None:
                 gx = float(ext_x[i, col])
                 if not any(labs[k] == lab and _same(xs[k], gx) for k in attain):
@@ -2111,6 +2723,18 @@ def oracle_uf(spec):
     return fails
 
 
+def _vrs_documented(f, psd, fn, Q):
+    """the vibration response spectrum as srs.vrs documents it: sqrt(sum(gain_i * PSD_i * delta_f_i)), plain numpy"""
+    f = np.asarray(f, dtype=float)
+    df = np.empty(len(f))
+    df[1:-1] = (f[2:] - f[:-2]) / 2
+    df[0] = f[1] - f[0]
+    df[-1] = f[-1] - f[-2]
+    p = f / fn
+    gain = (1 + (p / Q) ** 2) / ((1 - p ** 2) ** 2 + (p / Q) ** 2)
+    return float(np.sqrt(np.sum(gain * psd * df)))
+
+
 def oracle_psd(spec):
     fails = []
     res, err = build_psd(spec)
@@ -2130,11 +2754,24 @@ def oracle_psd(spec):
     pf = spec["pf"]
     rt = 1e-11
     PK = np.zeros((r, n))
+    au, sr = spec.get("applyuf"), spec.get("srs")
+    tag = "" if au is None else "-use-apply-uf"
     for k in range(n):
         j = spec["js"][k]
-        R = psd_resp(spec, k)
+        R = psd_resp(spec, k) if au is None else psd_resp_documented(spec, k)
         F = np.array(spec["cases"][k]["F"])
         psd = sum(F[i][None, :] * (R[i].real ** 2 + R[i].imag ** 2) for i in range(len(R)))
+        if sr is not None and not fails:
+            fn, pfv = psd_fn(spec), psd_pf(spec)
+            for q in sr["Qs"]:
+                fact = sr["conv"] * pfv / (q if sr["eqsine"] else 1.0)
+                want = np.array([[fact[b] * _vrs_documented(f, psd[i], fn[b], q) for b in range(len(fn))] for i in sr["pv"]])
+                if _close(cat.srs.srs[q][j], want, 1e-8) is not None:
+                    fails.append(("psd-srs-spectrum%s%s" % ("-eqsine" if sr["eqsine"] else "", tag),
+                                  "case %d, Q=%s: the stored spectrum is not conv*pf%s times the documented vibration response "
+                                  "spectrum of the response PSD" % (k, q, "/Q" if sr["eqsine"] else ""), spec,
+                                  cat.srs.srs[q][j].tolist(), want.tolist()))
+                    break
         ms = np.trapezoid(psd, f, axis=1)
         rms = np.sqrt(ms)
         vms = np.trapezoid(f ** 2 * psd, f, axis=1)
@@ -2144,12 +2781,12 @@ def oracle_psd(spec):
         if spec["histpv"] is not None:
             pv = slice(None) if spec["histpv"] == "all" else [0]
             if _close(cat.psd[j], psd[pv], rt) is not None:
-                fam = "psd-accumulation-%s" % ("multi-force" if len(R) > 1 else "single-force")
+                fam = "psd-accumulation-%s%s" % ("multi-force" if len(R) > 1 else "single-force", tag)
                 fails.append((fam, "case %d: the stored response PSD is not the sum over the forces of forcepsd_i*|H_i|^2" % k,
                               spec, cat.psd[j].tolist(), psd[pv].tolist()))
                 break
         if _close(cat.rms[:, j], rms, rt) is not None:
-            fam = "psd-rms-not-sqrt-trapezoid" + ("" if len(R) == 1 else "-multi-force")
+            fam = "psd-rms-not-sqrt-trapezoid" + ("" if len(R) == 1 else "-multi-force") + tag
             fails.append((fam, "case %d: rms is not the square root of the trapezoid area under the response PSD" % k,
                           spec, cat.rms[:, j].tolist(), rms.tolist()))
             break
@@ -2187,6 +2824,12 @@ def oracle_psd(spec):
             want_cases[spec["js"][k]] = spec["labels"][k]
         if list(cat.cases) != want_cases:
             fails.append(("psd-cases-order", "cases list", spec, list(cat.cases), want_cases))
+    if not fails and sr is not None:
+        for q in sr["Qs"]:
+            env = np.fmax.reduce(cat.srs.srs[q], axis=0)
+            if not np.array_equal(env, cat.srs.ext[q], equal_nan=True):
+                fails.append(("psd-srs-envelope-not-max-over-cases", "srs.ext[%s] of the PSD recovery is not the maximum over the "
+                              "cases of the per-case spectra" % q, spec, cat.srs.ext[q].tolist(), env.tolist()))
     if not fails:
         res2, err2 = build_psd(spec, force_perm=True)
         if err2 or _close(res2["cat"].rms, cat.rms, rt) is not None:
@@ -2200,6 +2843,9 @@ def oracle_psd(spec):
         if err4 or not np.array_equal(res4["cat"].ext, cat.ext, equal_nan=True):
             fails.append(("psd-order-dependent-values", "extreme values change when the cases are run in reverse order", spec,
                           None if err4 else res4["cat"].ext.tolist(), cat.ext.tolist()))
+        elif sr is not None and any(not np.array_equal(res4["cat"].srs.ext[q], cat.srs.ext[q], equal_nan=True) for q in sr["Qs"]):
+            fails.append(("psd-srs-order-dependent", "the SRS envelope of the PSD recovery changes with the case order", spec,
+                          None, None))
     return fails
 
 
@@ -2225,7 +2871,22 @@ def oracle_calc(spec):
         want = np.column_stack((mx.mean(axis=1) + spec["k"] * mx.std(ddof=1, axis=1),
                                 mn.mean(axis=1) - spec["k"] * mn.std(ddof=1, axis=1)))
         if _close(cat.ext, want, 1e-11) is not None or cat.ext_x is not None or set(cat.maxcase + cat.mincase) != {"Statistical"}:
-            fails.append(("calc-stat-ext", "ext is not mean +/- k*sigma over the per-case columns", spec, cat.ext.tolist(), want.tolist()))
+            fails.append(("calc-stat-ext", "ext is not mean +/- k*sigma (ddof=1) over the per-case columns", spec,
+                          cat.ext.tolist(), want.tolist()))
+        if spec["srs"] is not None:
+            S = np.array(spec["srs"])
+            ws = S.mean(axis=0) + spec["k"] * S.std(ddof=1, axis=0)
+            if _close(cat.srs.ext[10], ws, 1e-11) is not None:
+                fails.append(("calc-stat-ext-srs", "srs.ext is not mean + k*sigma (ddof=1) over the cases", spec,
+                              cat.srs.ext[10].tolist(), ws.tolist()))
+        # order of the cases is irrelevant
+        if not fails and len(spec["cases"]) > 1:
+            rev = dict(spec, mx=[row[::-1] for row in spec["mx"]], mn=[row[::-1] for row in spec["mn"]],
+                       cases=spec["cases"][::-1], srs=None if spec["srs"] is None else spec["srs"][::-1])
+            c2 = run_calc(rev, stat=True)
+            if _close(c2.ext, cat.ext, 1e-11) is not None:
+                fails.append(("calc-stat-ext-order-dependent", "statistical extreme changes with the order of the cases", spec,
+                              c2.ext.tolist(), cat.ext.tolist()))
         return fails
     cat = run_calc(spec)
     for i, (a, b) in enumerate(zip(spec["mx"], spec["mn"])):
@@ -2275,9 +2936,111 @@ def oracle_addmm(spec):
     return fails
 
 
+def _walk(res, path=()):
+    """(path, DR_Results) for every dictionary of the structure, depth first, insertion order"""
+    yield path, res
+    if len(res) and not isinstance(next(iter(res.values())), SimpleNamespace):
+        for k, v in res.items():
+            yield from _walk(v, path + (k,))
+
+
+def _is_base(res):
+    return len(res) > 0 and isinstance(next(iter(res.values())), SimpleNamespace)
+
+
+def oracle_tree(spec):
+    fails = []
+    d = spec["d"]
+    top = build_tree(spec)
+    # the parts: every category that is not inside an 'extreme' entry
+    before = {path + (c,): _snapshot(ns) for path, res in _walk(top) if _is_base(res) and "extreme" not in path
+              for c, ns in res.items()}
+    with warnings.catch_warnings():
+        warnings.simplefilter("ignore")
+        top.form_extreme("Envelope", doappend=d)
+    nodes = list(_walk(top))
+    for path, res in nodes:
+        if _is_base(res) and "extreme" not in path:
+            for c, ns in res.items():
+                bad = _snap_diff(before[path + (c,)], ns)
+                if bad is not None:
+                    fails.append(("form-extreme-nested-modifies-part-%s" % bad.replace(".", "-"),
+                                  "after form_extreme, `%s` of %s is no longer what was added" % (bad, "/".join(path + (c,))),
+                                  spec, jsonable_small(getattr(ns, bad, None)), jsonable_small(before[path + (c,)].get(bad))))
+                    return fails
+    bad = _tree_cases(top)
+    if bad is not None:
+        fails.append(("form-extreme-stale-extreme-kept", "group %s: 'extreme' must be the last key, occur once, and list the "
+                      "other keys as its cases; keys / cases are %r (a stale 'extreme' entry survived delete_extreme)" % bad,
+                      spec, bad[1], "members, then 'extreme'"))
+        return fails
+    # every group's envelope is the envelope of its members
+    for path, res in nodes:
+        if len(res) == 0 or _is_base(res) or "extreme" in path:
+            continue
+        members = [(k, (v["extreme"] if (not _is_base(v) and len(v)) else v)) for k, v in res.items() if k != "extreme"]
+        for c, ext in res["extreme"].items():
+            parts = [(k, m[c]) for k, m in members if c in m]
+            if not parts:
+                continue
+            allmx = np.fmax.reduce([p.ext[:, 0] for _, p in parts])
+            allmn = np.fmin.reduce([p.ext[:, 1] for _, p in parts])
+            if not (np.array_equal(ext.ext[:, 0], allmx, equal_nan=True) and np.array_equal(ext.ext[:, 1], allmn, equal_nan=True)):
+                fails.append(("form-extreme-nested-not-envelope", "the extreme of group %s is not the envelope of its members"
+                              % ("/".join(path) or "Top"), spec, ext.ext.tolist(), [allmx.tolist(), allmn.tolist()]))
+                return fails
+            for i in range(ext.ext.shape[0]):
+                for col, labs in ((0, ext.maxcase), (1, ext.mincase)):
+                    att = [(k, p) for k, p in parts if _same(float(p.ext[i, col]), float(ext.ext[i, col]))]
+                    lows = [(p.maxcase if col == 0 else p.mincase)[i] for _, p in att]
+                    if d == 0:
+                        ok = labs[i] in [k for k, _ in att]
+                    elif d == 3:
+                        ok = labs[i] in lows
+                    else:
+                        ok = any(labs[i] == k or labs[i].startswith(k + ",") for k, _ in att)
+                    if not ok:
+                        fails.append(("form-extreme-nested-label-doappend-%d" % d, "group %s row %d col %d: label %r names no "
+                                      "attaining member" % ("/".join(path) or "Top", i, col, labs[i]), spec, labs[i],
+                                      [k for k, _ in att]))
+                        return fails
+    # forming again / delete_extreme then form_extreme: the same tables
+    first = [ser_tree(top, i) for i in range(spec["rows"])]
+    dele = copy.deepcopy(top)
+    dele.delete_extreme()
+    for path, res in _walk(dele):
+        if "extreme" in res:
+            fails.append(("delete-extreme-leaves-extreme-at-depth-%d" % len(path), "after delete_extreme the dictionary %s "
+                          "still has an 'extreme' entry" % ("/".join(path) or "Top"), spec, list(res.keys()), "no 'extreme'"))
+            return fails
+    with warnings.catch_warnings():
+        warnings.simplefilter("ignore")
+        dele.form_extreme("Envelope", doappend=d)
+        top.form_extreme("Envelope", doappend=d)
+    if [ser_tree(top, i) for i in range(spec["rows"])] != first:
+        fails.append(("form-extreme-not-idempotent", "forming the extreme twice changes the tables of a nested structure", spec,
+                      ser_tree(top, 0), first[0]))
+    elif [ser_tree(dele, i) for i in range(spec["rows"])] != first:
+        fails.append(("delete-extreme-then-form-extreme-differs", "delete_extreme followed by form_extreme does not restore the "
+                      "tables", spec, ser_tree(dele, 0), first[0]))
+    # traversal order: categories come base event by base event, depth first in insertion order
+    bases = [(path, res) for path, res in _walk(top) if _is_base(res)]
+    got_b = [(nm, list(path)) for nm, b, path in top.all_base_events("Top")]
+    want_b = [(path[-1] if path else "Top", list(path)) for path, _ in bases]
+    got_c = [(nm, list(path)) for nm, c, path in top.all_categories()]
+    want_c = [(c, list(path) + [c]) for path, res in bases for c in res]
+    if got_b != want_b:
+        fails.append(("all-base-events-order", "all_base_events does not yield every base event once, depth first in insertion "
+                      "order, with its path", spec, got_b, want_b))
+    elif got_c != want_c:
+        fails.append(("all-categories-order", "all_categories does not yield the categories base event by base event", spec,
+                      got_c, want_c))
+    return fails
+
+
 _ORACLES = {"ext1": oracle_hist, "ext2": oracle_hist, "mm": oracle_mm, "event": oracle_event,
             "form": oracle_form, "uf": oracle_uf, "psd": oracle_psd, "merge": oracle_merge, "calc": oracle_calc,
-            "stat": oracle_calc, "addmm": oracle_addmm}
+            "stat": oracle_calc, "addmm": oracle_addmm, "tree": oracle_tree}
 
 
 def _run_oracle(ctx, spec):
@@ -2320,6 +3083,10 @@ def search(ctx, hints):
         _run_oracle(ctx, gen_stat(rng))
     for _ in range(ctx.pick(100, 600)):
         _run_oracle(ctx, gen_addmm(rng))
+    for _ in range(ctx.pick(100, 600)):
+        _run_oracle(ctx, gen_tree(rng))
+    for _ in range(ctx.pick(150, 1000)):
+        _run_oracle(ctx, gen_heap_hist(rng))
 
 
 def replay(ctx, data):
